@@ -8,10 +8,12 @@ the numeric MQTT packet types (`message.Type`); the sets the code switches on
 from /repo on every run.
 -/
 import Mqtt.Generated.Facts
+import Mqtt.Iface.AckQ
 
 namespace Mqtt.Model.AckQueue
 
 open Mqtt.Generated
+open Mqtt.Iface.AckQ
 
 /-- `sessions.AckMsg`.  `tag` stands for the `OnComplete` value (an opaque
 callback identity).  The zero value (`AckMsg{}`) is `AckMsg.zero`. -/
@@ -112,16 +114,6 @@ def Q.removeHead (q : Q) : Q :=
            count := q.count - 1,
            emap := emapDel q.emap it.pktid }
 
-/-- What `Wait` is handed: the dynamic type of the message and what the code
-reads from it. -/
-inductive WaitMsg where
-  | publish (qos : Nat) (pktid : Nat) (enc : Option (List UInt8))
-  | subscribe (pktid : Nat) (enc : Option (List UInt8))
-  | unsubscribe (pktid : Nat) (enc : Option (List UInt8))
-  | pingreq (enc : List UInt8)
-  | other
-deriving Repr
-
 /-- `Wait`; the Bool is "returned nil". -/
 def Q.wait (q : Q) (m : WaitMsg) (tag : Nat) : Q × Bool :=
   match m with
@@ -162,13 +154,6 @@ def Q.acked (q : Q) : Q × List AckMsg :=
   let (q, acc) :=
     if q.ping.state == tPINGRESP then ({ q with ping := AckMsg.zero }, [q.ping]) else (q, [])
   Q.drain q.count q acc
-
-/-! Operations as data, for histories. -/
-inductive Op where
-  | wait (m : WaitMsg) (tag : Nat)
-  | ack (mtype pktid : Nat) (bytes : List UInt8)
-  | acked
-deriving Repr
 
 inductive Out where
   | ok (b : Bool)
